@@ -11,6 +11,12 @@ fn parse_content_line(
     let mut nodes = Vec::new();
     if let Some((text_part, divert_part)) = split_inline_divert(content) {
         nodes.extend(tokenize_inline_content(text_part)?);
+        // Like inklecate: whatever whitespace is typed before the arrow (none, or several
+        // blanks), the text in front of a divert ends in exactly one space.
+        if let Some(Node::Text(before)) = nodes.last_mut() {
+            before.truncate(before.trim_end_matches([' ', '\t']).len());
+            before.push(' ');
+        }
         nodes.push(Node::Divert(parse_divert(divert_part)?));
     } else {
         nodes.extend(tokenize_inline_content(content)?);
